@@ -54,10 +54,10 @@ class _AddressList(Writeable):
                     addresses.append(header.address)
                 else:
                     addresses.extend(header.addresses)
-            return List([self._parse(address)
-                         for address in addresses])
-        else:
-            return Nil()
+            if addresses:
+                return List([self._parse(address)
+                             for address in addresses])
+        return Nil()
 
     def write(self, writer: WriteStream) -> None:
         self._value.write(writer)
